@@ -13,49 +13,65 @@ theorem issue_nofault (s : FSt) (h : s.rs = []) (op : FsOp) :
     s.issue op = ({ s with d := s.d.apply op, ops := s.ops ++ [(op, .ok)], rs := [] }, .ok) := by
   simp [FSt.issue, nextRes, h, applyRes_ok]
 
-/-- no fault: `flushWF` is `flushW` -/
-theorem flushWF_nofault (fc : FCfg) (mk : Mk) (s : FSt) (h : s.rs = []) :
+theorem flushW_dirty (mk : Mk) (w : WSt) : (flushW mk w).1.dirty = w.dirty := by
+  by_cases hb : w.buf = []
+  · rw [flushW_nil mk w hb]
+  · rw [flushW_cons mk w hb]
+
+theorem addW_dirty (mk : Mk) (w : WSt) (e : Op) (sz : Nat) : (addW mk w e sz).1.dirty = w.dirty := by
+  unfold addW
+  simp only
+  split
+  · rw [flushW_dirty]
+  · rfl
+
+/-- no fault (and no fragment waiting to be cut off): `flushWF` is `flushW` -/
+theorem flushWF_nofault (fc : FCfg) (mk : Mk) (s : FSt) (h : s.rs = []) (hd : s.w.dirty = false) :
     (flushWF fc mk s).w = (flushW mk s.w).1 ∧ (flushWF fc mk s).d = s.d.applyAll (flushW mk s.w).2 ∧
     (flushWF fc mk s).rs = [] ∧ (flushWF fc mk s).failed = s.failed := by
   by_cases hb : s.w.buf = []
-  · have : flushWF fc mk s = s := by unfold flushWF; rw [hb]
+  · have : flushWF fc mk s = s := by unfold flushWF; simp [hd, hb]
     rw [this, flushW_nil mk s.w hb]
     exact ⟨rfl, rfl, h, rfl⟩
   · rw [flushW_cons mk s.w hb]
     unfold flushWF
-    split
-    · rename_i hnil; exact absurd hnil hb
-    · simp [FSt.issue, nextRes, h, applyRes_ok, Res.isOk, Disk.applyAll, Nat.add_assoc]
+    simp [hd, hb, FSt.issue, nextRes, h, applyRes_ok, Res.isOk, Disk.applyAll, Nat.add_assoc]
 
-theorem addWF_nofault (fc : FCfg) (mk : Mk) (s : FSt) (h : s.rs = []) (e : Op) (sz : Nat) :
+theorem addWF_nofault (fc : FCfg) (mk : Mk) (s : FSt) (h : s.rs = []) (hd : s.w.dirty = false) (e : Op) (sz : Nat) :
     (addWF fc mk s e sz).w = (addW mk s.w e sz).1 ∧ (addWF fc mk s e sz).d = s.d.applyAll (addW mk s.w e sz).2 ∧
     (addWF fc mk s e sz).rs = [] := by
   unfold addWF addW
   simp only
   split
-  · have := flushWF_nofault fc mk { s with w := { s.w with buf := s.w.buf ++ [e], bufSize := s.w.bufSize + sz } } h
+  · have := flushWF_nofault fc mk { s with w := { s.w with buf := s.w.buf ++ [e], bufSize := s.w.bufSize + sz } } h hd
     exact ⟨this.1, this.2.1, this.2.2.1⟩
   · exact ⟨rfl, rfl, h⟩
 
-theorem addManyWF_nofault (fc : FCfg) (mk : Mk) (items : List (Op × Nat)) : ∀ (s : FSt), s.rs = [] →
+theorem addManyWF_nofault (fc : FCfg) (mk : Mk) (items : List (Op × Nat)) : ∀ (s : FSt), s.rs = [] → s.w.dirty = false →
     (addManyWF fc mk s items).w = (addManyW mk s.w items).1 ∧
     (addManyWF fc mk s items).d = s.d.applyAll (addManyW mk s.w items).2 ∧ (addManyWF fc mk s items).rs = [] := by
   induction items with
-  | nil => intro s h; exact ⟨rfl, rfl, h⟩
+  | nil => intro s h _; exact ⟨rfl, rfl, h⟩
   | cons it rest ih =>
-    intro s h
+    intro s h hd
     obtain ⟨e, sz⟩ := it
-    have h1 := addWF_nofault fc mk s h e sz
-    have h2 := ih { addWF fc mk s e sz with failed := false } h1.2.2
+    have h1 := addWF_nofault fc mk s h hd e sz
+    have hd1 : (addWF fc mk s e sz).w.dirty = false := by rw [h1.1, addW_dirty]; exact hd
+    have h2 := ih { addWF fc mk s e sz with failed := false } h1.2.2 hd1
     simp only [addManyWF, addManyW]
     refine ⟨?_, ?_, h2.2.2⟩
     · rw [h2.1]; simp only; rw [h1.1]
     · rw [h2.2.1]; simp only; rw [h1.2.1, h1.1, Disk.applyAll_append]
 
+theorem addManyW_dirty (mk : Mk) (items : List (Op × Nat)) : ∀ w : WSt, (addManyW mk w items).1.dirty = w.dirty := by
+  induction items with
+  | nil => intro w; rfl
+  | cons it rest ih => intro w; obtain ⟨e, sz⟩ := it; simp only [addManyW]; rw [ih, addW_dirty]
+
 /-- no fault and the descriptor at the end of the file: `syncWF` leaves the file `syncW` leaves -/
-theorem syncWF_nofault_disk (c : Cfg) (fc : FCfg) (mk : Mk) (s : FSt) (h : s.rs = []) :
+theorem syncWF_nofault_disk (c : Cfg) (fc : FCfg) (mk : Mk) (s : FSt) (h : s.rs = []) (hd : s.w.dirty = false) :
     (syncWF c fc mk s).d = s.d.applyAll (syncW c mk s.w).2 := by
-  have hf := flushWF_nofault fc mk { s with failed := false } h
+  have hf := flushWF_nofault fc mk { s with failed := false } h hd
   unfold syncWF syncW
   simp only [hf.2.2.2, Bool.false_eq_true, if_false, FSt.issue, hf.2.2.1, nextRes, applyRes_ok, Res.isOk,
     Bool.not_true]
